@@ -184,11 +184,29 @@ FreeMove(i, new, c) ==
     /\ UNCHANGED <<now, meta, origin, deliv, ret, cons, pend>>
 
 -----------------------------------------------------------------------------
+(* C05 owns the rule that a message with a due time ahead is not put where normal consumers see it: without the `early'  *)
+(* clause the same steps are allowed to place it in n (so that such a run is judged by C05's check, not by every check).  *)
+EarlyEnqueue(i, m) ==
+    /\ st[i] = "new" /\ loc[i] = Zero /\ m.due # NoTime /\ m.due > now
+    /\ st' = [st EXCEPT ![i] = "live"] /\ meta' = [meta EXCEPT ![i] = m] /\ loc' = [loc EXCEPT ![i] = U("n")]
+    /\ UNCHANGED <<now, holder, origin, deliv, ret, cons, norder, transit, pend>>
+EarlyRequeue(c, i, m) ==
+    /\ Held(c, i) /\ m.due # NoTime /\ m.due > now
+    /\ meta' = [meta EXCEPT ![i] = m] /\ loc' = [loc EXCEPT ![i] = U("n")] /\ holder' = [holder EXCEPT ![i] = NoC]
+    /\ ret' = [ret EXCEPT ![i] = TRUE]
+    /\ UNCHANGED <<now, st, origin, deliv, cons, norder, transit, pend>>
+EarlyRequeueInsert(i) ==
+    /\ transit[i] /\ loc[i] = Zero /\ pend[i].due # NoTime /\ pend[i].due > now
+    /\ meta' = [meta EXCEPT ![i] = pend[i]] /\ loc' = [loc EXCEPT ![i] = U("n")] /\ holder' = [holder EXCEPT ![i] = NoC]
+    /\ ret' = [ret EXCEPT ![i] = TRUE] /\ transit' = [transit EXCEPT ![i] = FALSE]
+    /\ UNCHANGED <<now, st, origin, deliv, cons, norder, pend>>
+
 TMove ==
     /\ Is("move") /\ Step
     /\ LET i == Ev.i  new == Vec(Ev.v)  k == Ev.k  cl == Call(Ev.k) IN
        /\ \/ /\ cl.op = "enqueue" /\ cl.i = i /\ ~cl.done
-             /\ \E pl \in {"n", "d"} : Enqueue(i, cl.m, pl)
+             /\ \/ \E pl \in {"n", "d"} : Enqueue(i, cl.m, pl)
+                \/ "early" \notin chk /\ EarlyEnqueue(i, cl.m)
              /\ Done(k) /\ taint' = taint
           \/ /\ Promote({i}, chk) /\ UNCHANGED <<calls, taint>>
           \/ /\ Expire(i, chk) /\ UNCHANGED <<calls, taint>>
@@ -202,9 +220,11 @@ TMove ==
           \/ /\ cl.op = "requeue" /\ cl.i = i /\ ~cl.done
              /\ \/ /\ \E pl \in {"n", "d"} : Requeue(cl.c, i, cl.m, pl)
                    /\ Done(k)
+                \/ /\ "early" \notin chk /\ EarlyRequeue(cl.c, i, cl.m) /\ Done(k)
                 \/ /\ RequeueRemove(cl.c, i, cl.m) /\ UNCHANGED calls
                 \/ /\ \E pl \in {"n", "d"} : RequeueInsert(i, pl)
                    /\ Done(k)
+                \/ /\ "early" \notin chk /\ EarlyRequeueInsert(i) /\ Done(k)
              /\ taint' = taint
           \* queue_flush / queue_delete: messages of that queue (and only of that queue) vanish
           \/ /\ cl.op = "flush" /\ Drop(i, cl.m.q) /\ UNCHANGED <<calls, taint>>
